@@ -542,7 +542,15 @@ def assemble(repo: str, template_path: str) -> Assembled:
                 j += 1
             if j >= len(tpl):
                 raise ExtractError("unterminated //@unit in %s" % name)
-            text, info = _apply_unit(repo, ln, block, name)
+            optional = ln.strip().startswith("//@unit?")
+            try:
+                text, info = _apply_unit(repo, ln.replace("//@unit?", "//@unit", 1), block, name)
+            except ExtractError as e:
+                if optional and "not found" in str(e) and "function" in str(e):
+                    out.append("// optional unit skipped: %s" % e)
+                    i = j + 1
+                    continue
+                raise
             info.asm_start = len(out) + 1
             out.extend(text.split("\n"))
             info.asm_end = len(out)
